@@ -329,7 +329,7 @@ func (r *Run) rtCaseM(v int, p *PK, thr int, model bool) {
 
 func runC01(r *Run) {
 	g := r.rng
-	r.st.Rule = "decode(encode p) for structured packets of the valid domain (3 types x verify x metadata present/absent x body lengths 0,1,255,256,65535,65536,... x field extremes) x thresholds {0,1,len-1,len,len+1,1024} x versions {1,2} x both decode entry points; compared with the model's composition and, independently, with p (direct oracle); plus unrepresentable packets (unknown type, body over the limit) which must yield an error. distinct = distinct request lines"
+	r.st.Rule = "decode(encode p) for structured packets of the valid domain (3 types x verify x metadata present/absent x body lengths 0,1,255,256,65535,65536,... x field extremes) x thresholds {0,1,len-1,len,len+1,1024} x versions {1,2} x both decode entry points; compared with the model's composition and, independently, with p (direct oracle); plus v2 metadata that fills the 65535-byte block exactly or leaves one byte, plus unrepresentable packets (unknown type, body over the limit) which must yield an error. distinct = distinct request lines"
 	n := 1500
 	if r.thorough() {
 		n = 30000
@@ -428,7 +428,7 @@ func (r *Run) gzCase(in []byte, tag string) {
 
 func runC10(r *Run) {
 	g := r.rng
-	r.st.Rule = "Compress/Decompress on byte strings (empty, incompressible, compressible, up to 1 MiB; larger in thorough); every single-byte corruption (3 bit patterns) and every truncation of small valid streams incl. CRC and ISIZE trailer; understated/overstated ISIZE, multi-member streams, trailing garbage; frame-level compression rule around the threshold; N goroutines on the pooled compressors. Verdict and content compared with the model instantiated by the standard library reader's own verdict. distinct = distinct request lines"
+	r.st.Rule = "Compress/Decompress on byte strings (empty, incompressible, compressible, up to 1 MiB; larger in thorough); every single-byte corruption (3 bit patterns) and every truncation of small valid streams incl. CRC and ISIZE trailer; understated/overstated ISIZE, multi-member streams, trailing garbage; frame-level compression rule around the threshold; N goroutines on the pooled compressors, also right after corrupt streams went through the pools and with 150-250 KB streams so that users of one pooled object would overlap. Verdict and content compared with the model instantiated by the standard library reader's own verdict. distinct = distinct request lines"
 	// identity
 	sizes := []int{0, 1, 2, 100, 1000, 4096, 70000, 1 << 20}
 	if r.thorough() {
@@ -744,7 +744,7 @@ func (g *RNG) frameSeq(v int, codec uint8, n int, small bool) (stream []byte, wa
 
 func runC03(r *Run) {
 	g := r.rng
-	r.st.Rule = "back-to-back frame sequences (both versions, all types, verify/gzip/metadata mixes, body >= 256 so the three length bytes differ) x partitions (random cuts; every single cut position; 1-byte chunks; fixed chunk sizes) x ring geometries (capacity 1..64, 509, 4096; every start offset so each multi-byte field meets the wrap) through the real Unpack on the real ring buffer; packets and left-over counts compared with the model after every chunk and with per-frame one-shot decoding (direct oracle). distinct = distinct request lines"
+	r.st.Rule = "back-to-back frame sequences (both versions, all types, verify/gzip/metadata mixes, body >= 256 so the three length bytes differ) x partitions (random cuts; every single cut position; 1-byte chunks; fixed chunk sizes) x ring geometries (capacity 1..64, 509, 4096; every start offset so each multi-byte field meets the wrap) through the real Unpack on the real ring buffer; an unrelated Pack on another context between every two chunks (shared header pools); packets and left-over counts compared with the model after every chunk and with per-frame one-shot decoding (direct oracle); delivered packets are re-rendered after the whole stream: they must not have changed (no aliasing of the receive buffer). distinct = distinct request lines"
 	nseq := 60
 	if r.thorough() {
 		nseq = 1200
